@@ -673,13 +673,20 @@ class LiteralUnmarshaller(AbstractUnmarshaller[LiteralT], tp.Generic[LiteralT]):
         self.values = inspection.args(t, evaluate=True)
 
     def __call__(self, val: tp.Any) -> LiteralT:
-        if val in self.values:
+        if self._ismember(val):
             return val
         decoded = serdes.load(val)
-        if decoded in self.values:
+        if self._ismember(decoded):
             return decoded  # type: ignore[return-value]
 
         raise ValueError(f"{decoded!r} is not one of {self.values!r}")
+
+    def _ismember(self, val: tp.Any) -> bool:
+        # Membership is typed: `True == 1` and `1.0 == 1`, but neither is the literal `1`.
+        return any(
+            val.__class__ is member.__class__ and val == member
+            for member in self.values
+        )
 
 
 UnionT = tp.TypeVar("UnionT")
